@@ -125,6 +125,20 @@ def directivesOf (s : String) : Option (List Directive) := do
 
 def alnum (r : Nat) : Bool := Syntax.isAlphanumeric r
 
+def itemDate : Spec.Import.Item → Int
+  | .booking d _ => d
+  | .assertion d _ _ => d
+  | .price d _ _ _ => d
+
+/-- `faithfulB` for statements of tens of thousands of rows (stream big). `faithfulB` looks for each item's directive from the
+front of the directives not yet taken; the output is ordered by day, so with the items in the order of the statement (newest
+first, say) that is quadratic. Here the items are first put in the order of their days (stable merge sort), which leaves each
+item's directive among the first few. A verdict `true` on the reordered items is a verdict about the same multiset of items
+(`C13_monitor_sound`: the directives are, up to a permutation, faithful to a permutation of the items); anything else is decided
+by `faithfulB` on the items as they stand. -/
+def faithfulBig (a : Account) (items : List Spec.Import.Item) (ds : List Directive) : Bool :=
+  Spec.Import.faithfulB a (items.mergeSort (fun x y => decide (itemDate x ≤ itemDate y))) ds || Spec.Import.faithfulB a items ds
+
 def handleStr (fields : List String) : String :=
   match fields with
   | ["c13-run", imp, flags, recs] =>
@@ -141,6 +155,17 @@ def handleStr (fields : List String) : String :=
       | some items => if Spec.Import.faithfulB (importAccount fs) items ds then "ok" else "fail"
       | none => "bad-op"
     | _, _, _, _ => "unsupported"
+  | ["c13-spec-big", imp, flags, recs, journal] =>
+    match unhexStr imp, parseHexList flags, parseRecords recs, directivesOf journal with
+    | some imp, some fs, some recs, some ds =>
+      match specItems imp fs recs with
+      | some items => if faithfulBig (importAccount fs) items ds then "ok" else "fail"
+      | none => "bad-op"
+    | _, _, _, _ => "unsupported"
+  | ["c13-faithful-big", acct, items, journal] =>
+    match unhexStr acct, parseItems items, directivesOf journal with
+    | some a, some items, some ds => if faithfulBig (Account.ofName a) items ds then "ok" else "fail"
+    | _, _, _ => "unsupported"
   | ["c13-faithful", acct, items, journal] =>
     match unhexStr acct, parseItems items, directivesOf journal with
     | some a, some items, some ds => if Spec.Import.faithfulB (Account.ofName a) items ds then "ok" else "fail"
